@@ -27,9 +27,10 @@ const (
 	TChain2
 	TGrowArmed
 	TShrinkArmed
+	TFullChain // the target chain is exactly full but the table is below the load factor: the next insert appends a bucket
 )
 
-var tableNames = [...]string{"plain", "chain2", "growArmed", "shrinkArmed"}
+var tableNames = [...]string{"plain", "chain2", "growArmed", "shrinkArmed", "fullChain"}
 
 const (
 	fillTarget = 100 // key indices 100.. : fillers in the target chain
@@ -153,6 +154,15 @@ func (ms *MapScen) setup() (MapLike, MState) {
 			for j := 0; j < slots; j++ {
 				m.Store(fillTarget+j, 1000+j)
 			}
+		}
+	case TFullChain:
+		putKeys()
+		nf := (slots - inTarget%slots) % slots
+		if inTarget == 0 {
+			nf = slots
+		}
+		for j := 0; j < nf; j++ {
+			m.Store(fillTarget+j, 1000+j)
 		}
 	case TGrowArmed:
 		putKeys()
